@@ -45,7 +45,7 @@ def report(ck, sig, detail):
 def match(exp, obs, step, rec, prev):
     """Verdict projection: answer class, every identifier's length and bytes, allocation ownership, comparison result."""
     a = step["a"]
-    if obs.get("ret") != exp["ret"]:
+    if exp["ret"] != "any" and obs.get("ret") != exp["ret"]:
         return "ret: expected %s, observed %s" % (exp["ret"], obs.get("ret"))
     eids, oids = exp["ids"], obs.get("ids") or []
     for k, e in enumerate(eids):
@@ -151,16 +151,20 @@ def gen_histories(ck, n, steps):
                 mode = rng.choice(["len", "len", "cstr"])
                 k = around(i)
                 d = rnd_bytes(rng, k, mode == "len")
-                beh.append({"a": "set", "arg": {"id": i + 1, "data": d, "mode": mode}})
-                last[i] = d
+                fail = 1 if rng.random() < 0.1 else 0
+                beh.append({"a": "set", "arg": {"id": i + 1, "data": d, "mode": mode, "fail": fail}})
+                if not fail:
+                    last[i] = d
             elif op == "setraw":
                 i = rng.choice(lv)
                 beh.append({"a": "setraw", "arg": {"id": i + 1, "n": around(i)}})
                 last[i] = []
             elif op == "copy":
                 i, j = rng.choice(lv), rng.choice(lv)
-                beh.append({"a": "copy", "arg": {"id": i + 1, "src": j + 1}})
-                last[i] = last[j]
+                fail = 1 if rng.random() < 0.1 else 0
+                beh.append({"a": "copy", "arg": {"id": i + 1, "src": j + 1, "fail": fail}})
+                if not fail:
+                    last[i] = last[j]
             elif op == "copynull":
                 i = rng.choice(lv)
                 beh.append({"a": "copynull", "arg": {"id": i + 1}})
@@ -200,7 +204,7 @@ def gen_histories(ck, n, steps):
             elif op == "tinit":
                 i = rng.choice(dead)
                 j = rng.choice(lv + [-1]) if lv else -1
-                beh.append({"a": "tinit", "arg": {"id": i + 1, "src": j + 1}})
+                beh.append({"a": "tinit", "arg": {"id": i + 1, "src": j + 1, "fail": 1 if rng.random() < 0.1 else 0}})
                 live[i] = True
                 last[i] = last[j] if j >= 0 else []
                 cap[i] = 12
@@ -217,15 +221,15 @@ def gen_big(ck, n):
         b = rng.randrange(1, 256)
         beh = [{"a": "init", "arg": {"sizes": [sz, 16]}}]
         for ln in (65534, 65535, 65536):
-            beh.append({"a": "set", "arg": {"id": 1, "data": [b] * ln, "mode": rng.choice(["len", "cstr"])}})
-        beh.append({"a": "copy", "arg": {"id": 2, "src": 1}})
+            beh.append({"a": "set", "arg": {"id": 1, "data": [b] * ln, "mode": rng.choice(["len", "cstr"]), "fail": 0}})
+        beh.append({"a": "copy", "arg": {"id": 2, "src": 1, "fail": 0}})
         beh.append({"a": "inequal", "arg": {"id": 1, "other": 2}})
         beh.append({"a": "compare", "arg": {"id": 2, "data": [b] * 65534, "mode": "cstr"}})
         beh.append({"a": "compare", "arg": {"id": 2, "data": [b] * 65533 + [b % 255 + 1], "mode": "len"}})
         for ln in (65535, 65536):
             beh.append({"a": "setraw", "arg": {"id": 1, "n": ln}})
-        beh.append({"a": "set", "arg": {"id": 1, "data": [b] * 5, "mode": "len"}})
-        beh.append({"a": "copy", "arg": {"id": 2, "src": 1}})
+        beh.append({"a": "set", "arg": {"id": 1, "data": [b] * 5, "mode": "len", "fail": 0}})
+        beh.append({"a": "copy", "arg": {"id": 2, "src": 1, "fail": 0}})
         beh.append({"a": "fini", "arg": {"id": 1}})
         beh.append({"a": "fini", "arg": {"id": 2}})
         behs.append(beh)
@@ -288,6 +292,10 @@ def validate(tag, hist, recs, api, max_rejects=6):
         dropped.add(ev["b"])
         if len(dropped) >= max_rejects:
             break
+    tdir = os.path.join(vlib.WORK, "traces")
+    for f in (os.listdir(tdir) if os.path.isdir(tdir) else []):
+        if f.startswith("Trace_Ident_%s-%d." % (tag, os.getpid())):
+            os.unlink(os.path.join(tdir, f))      # the violation file carries the behaviour
     return len(hist) - len(dropped) if len(dropped) < max_rejects else 0, found, trans, nev
 
 
